@@ -16,7 +16,10 @@ RULE = ("1-5 atoms.  level 'step': chains of 1-3 EvolveStateVector.apply steps w
         "Blackman amplitude, constant / ramp detuning, leading or trailing flat and zero segments) are torch tensors.  "
         "Loss = generated real function of the results (weighted occupations, energy, overlap with a generated vector).  "
         "Oracle: central finite differences in float64 with step h and h/2 (entries whose two estimates disagree are "
-        "skipped and counted, never judged); |g_ad - g_fd| <= 2e-5*max(1,|g|) + 40*krylov_tol/h; every gradient entry "
+        "skipped and counted, never judged); |g_ad - g_fd| <= 2e-5*max(1,|g|) + 40*krylov_tol/h; when the emulator's own "
+        "finite difference disagrees, finite differences of an exact dense model of the same run arbitrate (the emulator's "
+        "forward error near eigenvectors -- the C07 finding -- pollutes its finite differences); Pulser parameters whose "
+        "sample gradients are inconsistent inside pulser itself are skipped and labelled; every gradient entry "
         "finite (a missing gradient for an input the loss depends on counts as wrong).  non-trivial = >=2 atoms with "
         "non-zero interaction and a gradient entry of magnitude > 1e-6; distinct = case hash")
 ASSUMPTIONS = ["finite differences are the reference: krylov_tolerance 1e-12 keeps their noise ~1e-8 at h=1e-4",
@@ -164,9 +167,7 @@ def check_case(case) -> Result:
                   "d0": torch.tensor(case["delta"][0][0], dtype=torch.float64), "d1": torch.tensor(case["delta"][-1][-1], dtype=torch.float64)}
         coords = [(7.0 * i, 0.0) for i in range(n)]
 
-        def forward(p):
-            from emu_sv import SVBackend
-
+        def build_sequence(p):
             reg = pulser.Register({f"q{i}": c for i, c in enumerate(coords)})
             seq = pulser.Sequence(reg, pulser.devices.MockDevice)
             seq.declare_channel("g", "rydberg_global")
@@ -190,6 +191,12 @@ def check_case(case) -> Result:
             seq.add(pulser.Pulse(amp, det, 0.0), "g")
             if ak == "delay_then_const":
                 seq.delay(8, "g")
+            return seq
+
+        def forward(p):
+            from emu_sv import SVBackend
+
+            seq = build_sequence(p)
             cfg = e2e.sv_config(dt=case["dt"], krylov_tolerance=ktol, observables=[pb.Occupation(evaluation_times=[1.0]), pb.StateResult(evaluation_times=[1.0])])
             res = cut(SVBackend(seq, config=cfg).run)
             if case["loss"] in ("occupation", "energy"):
@@ -197,6 +204,45 @@ def check_case(case) -> Result:
             return loss_from_state(res.state[-1].data)
 
         r.label("amp:" + case["amp_kind"], "det:" + case["det_kind"])
+
+    # ------------------------------------------------------------------ exact dense model of the same run (arbiter)
+    from pbt.oracles import dense as _dense
+    import scipy.linalg as _sla
+
+    rv_np, Mq_np, w_np = rvec.numpy(), Mq.numpy(), wocc.numpy()
+
+    def np_loss(psi, H_last=None):
+        kind = case["loss"]
+        occ = np.array([np.vdot(psi, _dense.site_op(_dense.n_op(), i, n) @ psi).real for i in range(n)])
+        val = 0.0
+        if kind in ("occupation", "mix") or (kind == "energy" and level == "pulser"):
+            val += float((w_np * occ).sum())
+        if kind in ("overlap", "mix"):
+            ov = np.vdot(rv_np, psi)
+            val += float(ov.real + abs(ov) ** 2)
+        if kind == "energy" and level == "step":
+            val += float(np.vdot(psi, Mq_np @ psi).real)
+        if kind == "energy" and level == "backend":
+            val += float(np.vdot(psi, H_last @ psi).real)
+        return val
+
+    def dense_at(name, idx, delta):
+        p = {k: v.clone().numpy().astype(float) for k, v in params.items()}
+        p[name].reshape(-1)[idx] += delta
+        if level in ("step", "backend"):
+            psi = (p["psi_re"] + 1j * p["psi_im"]) if level == "step" else np.eye(D, dtype=complex)[0]
+            H = None
+            for s_ in range(case["steps"]):
+                Um = np.triu(p["U"], 1)
+                Um = Um + Um.T
+                H = _dense.hamiltonian("rydberg", p["omega"][s_], p["delta"][s_], p["phi"][s_], Um, d=2)
+                psi = _sla.expm(-1j * case["dt"] * 1e-3 * H) @ psi
+            return np_loss(psi, H)
+        seq_ = build_sequence({k: float(v) for k, v in p.items()})
+        from pbt.props import c01 as _c01
+
+        refs_, info_ = _c01.reference({"seq": {"device": "mock", "slm": None}, "evals": [[1.0]], "dt": case["dt"], "custom": None, "cutoff": 0.0}, seq_)
+        return np_loss(refs_[0].states[len(info_["grid"]) - 1])
 
     # ------------------------------------------------------------------ autograd
     leaves = {k: v.clone().requires_grad_(True) for k, v in params.items()}
@@ -221,8 +267,37 @@ def check_case(case) -> Result:
         with torch.no_grad():
             return float(forward(p))
 
+    unusable = set()
+    if level == "pulser":
+        from pulser._hamiltonian_data import HamiltonianData
+
+        def samples_of(p):
+            hd_ = HamiltonianData.from_sequence(build_sequence(p))
+            loc_ = next(iter(hd_.noisy_samples)).samples.to_nested_dict(all_local=True, samples_type="tensor")["Local"]["ground-rydberg"]["q0"]
+            return torch.cat([torch.as_tensor(loc_["amp"]).real.reshape(-1), torch.as_tensor(loc_["det"]).real.reshape(-1)])
+
+        lv = {k: v.clone().requires_grad_(True) for k, v in params.items()}
+        smp = samples_of(lv)
+        for name in params:
+            jac = torch.zeros(smp.numel(), dtype=torch.float64)
+            if smp.requires_grad:
+                for k_ in range(smp.numel()):
+                    g_ = torch.autograd.grad(smp[k_], lv[name], retain_graph=True, allow_unused=True)[0]
+                    jac[k_] = 0.0 if g_ is None else float(g_)
+            pp, pm_ = {k: v.clone() for k, v in params.items()}, {k: v.clone() for k, v in params.items()}
+            pp[name] = pp[name] + 1e-5
+            pm_[name] = pm_[name] - 1e-5
+            with torch.no_grad():
+                fdj = (samples_of(pp) - samples_of(pm_)) / 2e-5
+            if float((jac - fdj).abs().max()) > 1e-6:
+                # pulser's own differentiable sampling is inconsistent for this parameter (e.g. the last sample of a
+                # RampWaveform carries no gradient w.r.t. its end value): not something the emulators can be held to
+                unusable.add(name)
+                r.label("pulser_sample_gradient_inconsistent:" + name)
     entries = []
     for name, v in params.items():
+        if name in unusable:
+            continue
         for idx in range(v.numel()):
             entries.append((name, idx))
     order = rng.permutation(len(entries))
@@ -260,12 +335,19 @@ def check_case(case) -> Result:
         if abs(gv) > 1e-6:
             big = True
         if abs(gv - fd2) > TOL["rel"] * scale + 40 * ktol / h:
+            fd_ref = (dense_at(name, idx, h) - dense_at(name, idx, -h)) / (2 * h)
+            if abs(gv - fd_ref) <= TOL["rel"] * max(1.0, abs(fd_ref)) + 1e-7 and not energy_obs:
+                # the gradient agrees with the exact dense model of the run; the emulator's own finite difference is off
+                # because its forward pass is (known C07 finding: premature Krylov stop near eigenvectors)
+                r.label("emulator_fd_polluted_by_forward_error")
+                continue
             kind = f"gradient_differs_from_finite_differences:{level}:{name}" + (":zero_phase" if (name == "phi" and float(params[name].reshape(-1)[idx]) == 0.0) else "")
             if energy_obs:
                 # the Energy observable is evaluated with a Hamiltonian object built outside the autograd graph
                 kind = "energy_observable_not_differentiable:explicit_dependence_dropped"
             r.fail(kind,
-                   f"{where}: autograd {gv:.8e} vs finite differences {fd2:.8e} (h={h}, h/2 estimate {fd1:.8e}); n={n}, steps={case['steps']}, loss={case['loss']}")
+                   f"{where}: autograd {gv:.8e} vs finite differences {fd2:.8e} (h={h}, h/2 estimate {fd1:.8e}), dense-model finite differences {fd_ref:.8e}; "
+                   f"n={n}, steps={case['steps']}, loss={case['loss']}")
             break
     for name, g in g_ad.items():
         if g is not None and not bool(torch.isfinite(g).all()):
